@@ -46,6 +46,23 @@ Theorem set_string_env_local : forall root np h q x s,
 Proof. exact EditProofs.set_string_env_local. Qed.
 Print Assumptions set_string_env_local.
 
+(* the same for an environment WITHOUT arguments, in terms of its raw contents only: all
+   but one of them are whitespace-only texts and that one is a text *)
+Theorem set_string_env_noargs_local : forall root np h x s,
+  get root np = Some h -> is_env h = true -> args_of h = [] ->
+  filter (fun c => negb (is_ws_item c)) (body_of h) = [x] -> is_node x = false ->
+  exists root', set_string root np s = Done root' /\
+    estr root  = span_pre root np ++ estr_list (body_of h) ++ span_post root np /\
+    estr root' = span_pre root np ++ s ++ span_post root np.
+Proof. exact EditProofs.set_string_env_noargs_local. Qed.
+Print Assumptions set_string_env_noargs_local.
+Theorem set_string_env_noargs_example :
+  let root := parsed doc_env in
+  exists h x, get root [SBody 0] = Some h /\ is_env h = true /\ args_of h = [] /\
+              filter (fun c => negb (is_ws_item c)) (body_of h) = [x] /\ is_node x = false.
+Proof. exact EditProofs.set_string_env_noargs_example. Qed.
+Print Assumptions set_string_env_noargs_example.
+
 (* node.args = a permutation / prefix / slice (index selection idxs) of the argument list *)
 Theorem set_args_local : forall root np h idxs a',
   get root np = Some h -> has_args h = true -> nodup_nat idxs = true ->
